@@ -43,6 +43,10 @@ func runC18(p *core.Program, r *core.Report) {
 		}
 	}
 	generatorOrderSources(p, r, "R5", "devpkg/partialstruct")
+	// R7: "is reported as an error": the error GenerateType returns reaches the result of Execute
+	chainRules(p, r, "R7", "C02", []string{"C02.R4", "C02.R5"}, "an error returned by GenerateType reaches the result of Execute")
+	// R8: "the generated code compiles": the file is replaced as a whole, no tail of the previous output survives
+	chainRules(p, r, "R8", "C01", []string{"C01.R1"}, "the generated file is replaced as a whole")
 	// R6: "foreign types correctly imported" - every package the type printer registered is
 	// imported under the very name the rendered field types use (C03.R2's printer rule)
 	r.Floor("R6", 2)
